@@ -71,6 +71,32 @@ Example proposeid_witness_repaired :
   end.
 Proof. vm_compute. reflexivity. Qed.
 
+(* (4) forced truncation (clear-entryLog-tolerate-time expired, or the size branch): the leader deletes entries a dead
+   member still lacks; when the member rejoins raft installs a snapshot that carries no shard data: the member counts
+   as caught up, yet never applies the entries in between. cfg_today = the tree with the three fix: commits. *)
+Definition forced_witness : list event :=
+  [ RElect 0;
+    Propose 0 [(1%N, 10%Z)]; RReplicate 1 1; RReplicate 2 1; RCommit 1; RLearn 0 1; RLearn 1 1; RLearn 2 1;
+    Apply 0; Apply 1; Apply 2;
+    Kill 2;                                                                        (* a long outage begins *)
+    Propose 0 [(1%N, 11%Z)]; Propose 0 [(2%N, 20%Z)]; RReplicate 1 3; RCommit 3; RLearn 0 3; RLearn 1 3;
+    Apply 0; Apply 0; Apply 1; Apply 1;                                            (* acknowledged overwrite of key 1 *)
+    UpdSnapc 0; FlushSwap 0; SnapPersist 0; FlushCommit 0; UpdSnapc 1; FlushSwap 1; SnapPersist 1; FlushCommit 1;
+    TruncForce 3; RReplicate 1 4; RCommit 4; RLearn 0 4; RLearn 1 4; Apply 0; Apply 1;   (* entries 1,2 deleted on 0 and 1 *)
+    Restart 2; RSnapshot 2 ].
+
+Theorem forced_truncation_strands_member_refuted :
+  exists es s, run raft_ref (init (cfg_today 3 2)) es = Some s /\
+    minority_always (init (cfg_today 3 2)) es = true /\
+    In (0, 2%N, [(1%N, 11%Z)]) (acked s) /\
+    avail (nodes s 2) = true /\ applied (nodes s 2) = 3 /\ read s 2 1%N = Some 10%Z /\ read s 2 2%N = None /\
+    get (ents_store (firstn 3 (glog s))) 1%N = Some 11%Z.
+Proof. exists forced_witness. eexists. vm_compute. repeat split. right; left; reflexivity. Qed.
+
+(* with trunc_all the forced proposal is simply not enabled while a member lacks the index *)
+Example forced_witness_repaired : run raft_ref (init (cfg_repaired 3 2)) forced_witness = None.
+Proof. vm_compute. reflexivity. Qed.
+
 (* (3) dealCommitData hands the waiting writer the result of Unmarshal only (the deferred call captures err before
    the apply runs): a failed local apply is acknowledged as success. *)
 Theorem ack_despite_apply_error_refuted :
